@@ -19,6 +19,11 @@ CLAIMS = {
    design_ref="7.20",
    note=BASE_NOTE + "Modelled not verified: Python str.split/find/slicing, dict order; assert statements effective (no -O); gateway creation stubbed in the id part (process handling is C05). Boundary: a non-final piece ending in '/' makes the text ambiguous (C20_ambiguous_example). Open finding: key 'env' is rejected.",
    technique="Coq proofs (parser round-trip by induction; LTS invariant over all interleavings) + extracted-model differential + scheduler-driven trace inclusion"),
+ "C08": dict(
+   text="Theorems (Coq, unbounded): any sequence of well-formed messages (all type bytes, ids over the signed 32-bit range, payload lengths below 2^31) written back to back is decoded identically for EVERY chunking of the low-level reads; with atomic frame writes, for any number of concurrent senders and every interleaving the peer decodes exactly the frames written, each sender's in order (and a two-sender witness shows non-atomic writes corrupt the stream). Tied to the code by regenerated facts (header format and size, exactly one write call per frame, exact-read loops, buffered-file write for pipes, sendall under a lock for sockets) and by running the extracted model against the real Message.to_io/from_io, Popen2IO and SocketIO over scripted files/sockets (chunk oracles, cuts, malformed length fields) and real BaseGateway._send threads under the deterministic scheduler; thorough adds OS pipes and socketpairs with 4 threads x 1 MiB frames.",
+   design_ref="7.4",
+   note=BASE_NOTE + "Assumed: A-bufw (one BufferedWriter.write call is atomic across threads), the kernel delivers bytes reliably and in order; struct pack/unpack as modelled. The proxied transport is C16.",
+   technique="Coq proofs (codec round-trip for all chunkings; interleaving invariant) + facts on write shapes + differential/scheduler correspondence"),
 }
 
 REASON_TODO = "not claimed yet: model and theorems for this property are not built yet in this development (see DESIGN.md section 12 build order)"
